@@ -171,6 +171,9 @@ func (g *gen) run(in *Input) (out outcome) {
 	doc := in.Schema.BuildDoc()
 	g.mu.Lock()
 	_ = g.env.Register(in.Schema)
+	if in.Cred != nil && in.Cred.Override != nil {
+		_ = g.env.Register(in.Cred.Override)
+	}
 	g.mu.Unlock()
 	if in.RawDoc != nil {
 		doc = []byte(*in.RawDoc)
@@ -473,10 +476,16 @@ func (g *gen) assignments() {
 func strp(s string) *string { return &s }
 
 func (g *gen) malformed() {
-	fields := append(credgen.FieldPaths(), "spare")
+	// also the strings a lenient parser would take for paths
+	fields := append(credgen.FieldPaths(), "spare", "price=count", "=price", "price=", "count=name", "a=b=c", "priceslotValueB=name")
 	for _, bad := range []string{"iden3:v1:", "iden3:v2:slotIndexA=price", "slotIndexA=price", "iden3:v1", "iden3:v1:slotIndexA=price&slotIndexB=count&slotValueA=name&slotValueB=info.insured&slotIndexA=price",
 		"iden3:v1:slotIndexA=price=count", "iden3:v1:slotIndexC=price", "iden3:v1:slotIndexA", "iden3:v1:slotIndexA=price&", "iden3:v1:&slotIndexA=price", "iden3:v1:slotIndexA=price&&slotIndexB=count",
-		"Iden3:v1:slotIndexA=price", " iden3:v1:slotIndexA=price", "iden3:v1:slotindexa=price", "iden3:v1:slotIndexA =price", "iden3:v1:=price", "iden3:v1:slotIndexA=price;slotIndexB=count", "iden3:v1:slotIndexA==price"} {
+		"Iden3:v1:slotIndexA=price", " iden3:v1:slotIndexA=price", "iden3:v1:slotindexa=price", "iden3:v1:slotIndexA =price", "iden3:v1:=price", "iden3:v1:slotIndexA=price;slotIndexB=count", "iden3:v1:slotIndexA==price",
+		// a second '=' in a part (in every position), a lost '&', an empty key, a doubled '=', a trailing '=' - next to parts that are fine
+		"iden3:v1:slotIndexA=price=count&slotValueB=name", "iden3:v1:slotValueB=name&slotIndexA=price=count", "iden3:v1:slotIndexA=price&slotIndexB=count=name&slotValueA=name",
+		"iden3:v1:slotIndexA=price&slotIndexB=count&slotValueA=name=x&slotValueB=info.insured", "iden3:v1:slotIndexA=price&slotIndexB=count&slotValueA=name&slotValueB=info.insured=x",
+		"iden3:v1:slotIndexA==price&slotValueB=name", "iden3:v1:=price&slotValueB=name", "iden3:v1:slotIndexA=price=&slotValueB=name", "iden3:v1:slotIndexA=priceslotValueB=name",
+		"iden3:v1:slotIndexA=price&slotValueB=name&", "iden3:v1:slotValueB=name&slotIndexA", "iden3:v1:slotValueB=name&=", "iden3:v1:slotValueB=name&slotIndexA=a=b=c"} {
 		s := g.env.NewSchema(strp(bad))
 		g.ins = append(g.ins, &Input{Kind: "malformed", Schema: s, Lookups: lookupsFor(s, fields, true), Cred: &credgen.Spec{Schema: s}, InModel: true})
 	}
@@ -557,6 +566,48 @@ func (g *gen) specials() {
 				g.ins = append(g.ins, &Input{Kind: "assign", Asg: mainAsg, AsgIRI: in.AsgIRI, IRIError: in.IRIError, Schema: as, Lookups: in.Lookups[:12]})
 			}
 		}
+	}
+	// credentials with three and more contexts: the type's @id is spelled with a prefix that an EARLIER
+	// context declares; a LATER context redefines the type (the last definition is the type's); unrelated
+	// contexts before and after.  The schema document handed to the lookup is the combined @context array.
+	inner := func(sc *credgen.Schema) any {
+		var top map[string]any
+		_ = json.Unmarshal(sc.BuildDoc(), &top)
+		return top["@context"].([]any)[0]
+	}
+	rawOf := func(ctxs ...any) *string {
+		b, _ := json.Marshal(map[string]any{"@context": ctxs})
+		r := string(b)
+		return &r
+	}
+	noise := map[string]any{"noiseTerm": "https://noise.example/ns#term"}
+	for k, asg := range [][4]string{{"price", "", "", "name"}, {"", "count", "info.since", ""}, {"name", "price", "count", "info.insured"}} {
+		ps := g.env.NewSchema(strp(credgen.SerAttr(asg[0], asg[1], asg[2], asg[3])))
+		ps.TypeIDWritten = "acme:" + ps.TypeName
+		ps.TypeIRI = credgen.AcmeNS + ps.TypeName
+		_ = g.env.Register(ps)
+		pre := []string{credgen.URLPrefixCtx}
+		if k > 0 {
+			pre = []string{credgen.URLNoiseCtx, credgen.URLPrefixCtx}
+		}
+		sp := credgen.Spec{Schema: ps, PreCtx: pre}
+		if k == 2 {
+			sp.ExtraCtx = []string{credgen.URLNoiseCtx}
+		}
+		g.ins = append(g.ins, &Input{Kind: "assign", Asg: asg, Schema: ps, RawDoc: rawOf(noise, credgen.PrefixCtxInner(), inner(ps)), Lookups: lookupsFor(ps, fields, k == 0), Cred: &sp, InModel: true})
+	}
+	for k, pair := range [][2][4]string{{{"price", "", "", ""}, {"", "count", "name", ""}}, {{"name", "count", "", ""}, {"", "", "name", "count"}}, {{"price", "count", "name", "info.insured"}, {"info.since", "", "", ""}}} {
+		bs := g.env.NewSchema(strp(credgen.SerAttr(pair[0][0], pair[0][1], pair[0][2], pair[0][3])))
+		bs.Unprotected = true
+		_ = g.env.Register(bs)
+		ov := &credgen.Schema{URL: strings.Replace(bs.URL, ".json-ld", "-override.json-ld", 1), TypeName: bs.TypeName, TypeIRI: bs.TypeIRI,
+			Ser: strp(credgen.SerAttr(pair[1][0], pair[1][1], pair[1][2], pair[1][3])), CtxShape: "map", Unprotected: true}
+		sp := credgen.Spec{Schema: bs, Override: ov}
+		if k > 0 {
+			sp.PreCtx = []string{credgen.URLNoiseCtx}
+			sp.ExtraCtx = []string{credgen.URLPrefixCtx}
+		}
+		g.ins = append(g.ins, &Input{Kind: "assign", Asg: pair[1], Schema: bs, RawDoc: rawOf(inner(bs), inner(ov), noise), Lookups: lookupsFor(bs, fields, false), Cred: &sp, InModel: true})
 	}
 	// attribute that is not a string; merklized schema: no attribute at all
 	sn := g.env.NewSchema(nil)
@@ -982,7 +1033,7 @@ func (g *gen) writeShards() error {
 func Run(cfg *common.Config) (*common.Report, error) {
 	rep := common.NewReport("C17")
 	rep.Correspondence = "Claim.Run.lmismatches / hmismatches / amismatches / fmismatches: get_field_slot_index, parser_parse_claim and the facade (Claim/Model.v) vs json.Parser.GetFieldSlotIndex / ParseClaim and processor.Processor; to_core_claim vs W3CCredential.ToCoreClaim on a credential of each type; and the model's own lookup against the model's own claim on the recorded field encodings"
-	rep.Rule = "ALL 6^4 = 1296 assignments of the four data slots to {none, price, count, name, info.insured, info.since}; per assignment: lookups of the five fields, an unnamed field and the empty string by type name and by type IRI, an unknown type, the processor facade with and without parser, and the claim of a credential of that type (subject id / expiration varied); plus reordered and repeated parts, absent designated fields, 19 malformed attributes, non-string attribute, no attribute, array-shaped scoped context, sibling types sorting before/after (30 repetitions), 13 bad schema documents, stub components behind the facade (results and the options object passed through, field by field); ParseClaim through the facade vs the parser called directly for every option field and three sets of merklizer options (a loader that alone resolves the contexts, + custom hasher, + safe mode off); for every 9th assignment a claim is first built with a second document loader that serves another schema document (merklized / the assignment read backwards) at the same URL and type. distinct = distinct (schema, lookups, credential) inputs; all are non-trivial (each reaches the attribute parser or one of the documented error points)."
+	rep.Rule = "ALL 6^4 = 1296 assignments of the four data slots to {none, price, count, name, info.insured, info.since}; per assignment: lookups of the five fields, an unnamed field and the empty string by type name and by type IRI, an unknown type, the processor facade with and without parser, and the claim of a credential of that type (subject id / expiration varied); plus reordered and repeated parts, absent designated fields, 32 malformed attributes (a second '=' in a part in every position, a lost '&', empty key, doubled / trailing '='), non-string attribute, no attribute, array-shaped scoped context, sibling types sorting before/after (30 repetitions), 13 bad schema documents, stub components behind the facade (results and the options object passed through, field by field); ParseClaim through the facade vs the parser called directly for every option field and three sets of merklizer options (a loader that alone resolves the contexts, + custom hasher, + safe mode off); for every 9th assignment a claim is first built with a second document loader that serves another schema document (merklized / the assignment read backwards) at the same URL and type. distinct = distinct (schema, lookups, credential) inputs; all are non-trivial (each reaches the attribute parser or one of the documented error points)."
 	g := &gen{cfg: cfg, rep: rep, env: credgen.NewEnv(), env2: credgen.NewEnv()}
 	merklize.SetDocumentLoader(g.env.Loader)
 	if cfg.Replay != "" {
